@@ -15,8 +15,12 @@ EXTENDS TestHelper, Json, IOUtils, TLC, SequencesExt
 
 Case(c, b, a, beh, exp) == [c |-> c, b |-> b, a |-> a, beh |-> beh, exp |-> exp]
 Singles == {x \in {Case(c, b, a, beh, exp) : c \in Constraints, b \in Hooks, a \in Hooks, beh \in Behaviours, exp \in Expectations} : Instantiable(x)}
-Small == {Case(c, b, a, beh, exp) : c \in Constraints, b \in {"nil", "err"}, a \in {"nil", "panic"},
-                                    beh \in {"right", "wrong", "error"}, exp \in {"none", "any", "match_no"}}
+Quick == IOEnv.MBT_TIER = "quick"
+Small == IF Quick
+         THEN {Case(c, b, a, beh, exp) : c \in Constraints, b \in {"nil", "err"}, a \in {"nil", "panic"},
+                                         beh \in {"right", "wrong", "error"}, exp \in {"none", "any", "match_no"}}
+         ELSE {x \in {Case(c, b, a, beh, exp) : c \in Constraints, b \in {"nil", "err", "panic"}, a \in {"nil", "err"},
+                                         beh \in Behaviours, exp \in {"none", "any", "eq", "prefix_no", "match_no"}} : Instantiable(x)}
 Pairs == {<<x, y>> : x \in Small, y \in Small}
 
 Dirs == {"marshal", "unmarshal"}
@@ -25,9 +29,8 @@ Recvs == {"value", "pointer"}
 
 Program(dir, enc, recv, iface, cases) == [dir |-> dir, enc |-> enc, recv |-> recv, iface |-> iface, cases |-> cases]
 
-Quick == IOEnv.MBT_TIER = "quick"
 SingleProgs == {Program(d, e, r, TRUE, <<x>>) : d \in Dirs, e \in Encs, r \in Recvs, x \in Singles}
-PairProgs == {Program(d, e, "value", TRUE, <<p[1], p[2]>>) : d \in Dirs, e \in (IF Quick THEN {"Text"} ELSE Encs), p \in Pairs}
+PairProgs == {Program(d, e, "value", TRUE, <<p[1], p[2]>>) : d \in Dirs, e \in {"Text"}, p \in Pairs}
 Other == {Program(d, e, r, FALSE, <<x>>) : d \in Dirs, e \in Encs, r \in Recvs, x \in Small}
          \cup {Program(d, e, r, i, <<>>) : d \in Dirs, e \in Encs, r \in Recvs, i \in BOOLEAN}
          \cup {Program(d, e, "value", TRUE, <<x, y, z>>) : d \in Dirs, e \in {"Text"},
